@@ -17,7 +17,8 @@ RULE_TEXT = ("C11-W: is_whitespace denotes exactly {0..=9} U {11..=32} (set equa
              "remainders threaded; C11-C: every class used in headers and numbers is closed under ASCII case swap, "
              "mnemonic classes are [A-Za-z] and [A-Za-z0-9_]; child lookup is case-insensitive on whole names (C01-M) "
              "and short and long forms are both in the trie (C01-T)."
-             " C11-PR: the contracts of the parser combinators the skeleton builds on are read from their bodies - satisfy (accept first byte iff pred / soft error / Incomplete on empty), take_while (never fails; longest prefix, position() form or counting-loop form), optional (never fails; Some(value) or input untouched), tag(b) = satisfy(== b).")
+             " C11-PR: the contracts of the parser combinators the skeleton builds on are read from their bodies - satisfy (accept first byte iff pred / soft error / Incomplete on empty), take_while (never fails; longest prefix, position() form or counting-loop form), optional (never fails; Some(value) or input untouched), tag(b) = satisfy(== b)."
+             " C11-R: run examines the bytes of its input through parse only (and, behind a failed parse, to find the terminator) - no test on raw bytes in front of the parser's white-space handling. C11-C03V: character program data reaches a handler only through a case-ignoring conversion (the conversion table of C03).")
 
 WS = frozenset(list(range(0, 10)) + list(range(11, 33)))
 
@@ -188,3 +189,50 @@ def run(ck):
     c01.rule_M(ck, lib)
     # short and long forms (and only those) are in the emitted trie, bound to the same handler
     c01.rule_T(ck, T="C11-T", D="C11-D")
+    rule_R(ck, lib)
+    # character program data reaches a handler only through a conversion that ignores its case (ON/OFF -> bool): the
+    # conversion table of C03 (a `&str` parameter is string data only) - necessary if "the case of mnemonics" includes
+    # the mnemonics sent as character data
+    import c03
+    with ck.under("C03-", "C11-C03"):
+        c03.rule_V(ck, lib)
+
+
+def rule_R(ck, lib):
+    """C11-R: the grammar - where white space is allowed, what separates units - is the parser's. `run` looks at the bytes
+    of its input only through `parse` (and its emptiness), except to find the terminator after `parse` has failed; a test
+    on the raw bytes in front of `parse` (skip a leading ';', a fast path for a known header) sees the input before white
+    space has been skipped and so depends on it."""
+    import runsum
+    rs = runsum.RunSummary(ck, lib)
+    if not rs.ok:
+        return
+    S = pathsum.strip_sites
+    inp_ids = {rs.input_id}
+
+    def is_input(t):
+        t = S(t)
+        while isinstance(t, tuple) and t and t[0] == "call" and t[1].split("::")[-1] in ("iter", "as_ref", "as_slice", "borrow") and len(t[2]) == 1:
+            t = t[2][0]
+        return isinstance(t, tuple) and len(t) > 1 and ((t[0] in ("loopvar", "local") and t[1] in inp_ids) or t == S(rs.input_arg))
+    bad = {}
+    n = 0
+    for x in rs.exits:
+        d = rs.classify(x)
+        failed = False
+        for e in x.effects:
+            if e[0] == "call" and e[1] == "microscpi::parser::parse":
+                failed = bool(d.get("parse_err"))
+                n += 1
+                continue
+            if failed:
+                continue        # behind a failed parse: the search for the terminator (judged by C06-R)
+            if e[0] == "call" and e[2] and any(is_input(a) for a in e[2]):
+                nm = e[1].split("::")[-1]
+                if nm not in ("is_empty", "len", "iter"):
+                    bad[(nm, str(e[3]) if len(e) > 3 else "")] = e
+            if e[0] == "index" and is_input(e[1]) and e[2][0] == "lit":
+                bad[("index by constant", str(e[3]) if len(e) > 3 else "")] = e
+    ck.judge(not bad, "C11-R", "run:input-only-through-parse", "run examines its input through parse only (and, after a failed parse, to find the terminator)",
+             "run looks at the raw bytes of its input outside parse: %s" % sorted(k[0] for k in bad), loc=(sorted(bad)[0][1] if bad else None))
+    ck.floor("C11-R", "parse calls on the paths of run", n, 4)
